@@ -300,9 +300,16 @@ impl Daemon {
 			cmd.env(k, v);
 		}
 		let um = o.umask;
+		// VERIF_NOFILE in the options' environment: descriptor limit of the child (not passed on as a variable)
+		let nofile: Option<u64> = o.env.iter().find(|(k, _)| k == "VERIF_NOFILE").and_then(|(_, v)| v.parse().ok());
+		cmd.env_remove("VERIF_NOFILE");
 		unsafe {
 			cmd.pre_exec(move || {
 				libc::setpgid(0, 0);
+				if let Some(n) = nofile {
+					let l = libc::rlimit { rlim_cur: n, rlim_max: n };
+					libc::setrlimit(libc::RLIMIT_NOFILE, &l);
+				}
 				if let Some(m) = um {
 					libc::umask(m as libc::mode_t);
 				}
